@@ -9,6 +9,7 @@
  */
 #include "common.h"
 #include "jls/core.h"
+#include "jls/reader.h"
 #include "jls/ec.h"
 
 #ifndef N_FIXED
@@ -43,7 +44,33 @@ int32_t jls_raw_chunk_seek(struct jls_raw_s * self, int64_t offset) { (void) sel
 
 int32_t jls_core_rd_chunk(struct jls_core_s * self) {
     ++n_reads;
+#ifdef MODE_ITERATE
+    CHECK(n_reads <= MAXL + 1 + N_FIXED, "seek + iteration read a bounded number of chunks");
+    for (uint32_t i = 0; i < N_FIXED; ++i) {
+        if (pos == DATA_OFF(i)) {
+            struct jls_annotation_s * a = (struct jls_annotation_s *) self->buf->start;
+            a->timestamp = ts[i];
+            a->rsv64_1 = 0;
+            a->annotation_type = JLS_ANNOTATION_TYPE_USER;
+            a->storage_type = JLS_STORAGE_TYPE_BINARY;
+            a->group_id = (uint8_t) i;            /* identifies the entry */
+            a->rsv8_1 = 0;
+            a->y = 0.0f;
+            a->data_size = 0;
+            self->chunk_cur.offset = pos;
+            self->chunk_cur.hdr.tag = JLS_TAG_TRACK_ANNOTATION_DATA;
+            self->chunk_cur.hdr.chunk_meta = 1;
+            self->chunk_cur.hdr.payload_length = 28;
+            self->chunk_cur.hdr.item_next = (i + 1 < N_FIXED) ? (uint64_t) DATA_OFF(i + 1) : 0;
+            self->buf->length = 28;
+            self->buf->cur = self->buf->start;
+            self->buf->end = self->buf->start + 28;
+            return 0;
+        }
+    }
+#else
     CHECK(n_reads <= MAXL + 1, "seek reads at most one chunk per level");
+#endif
     /* which index chunk is at pos? */
     for (uint32_t l = 1; l <= MAXL; ++l) {
         for (uint32_t c = 0; c < MAXC; ++c) {
@@ -78,6 +105,23 @@ int32_t jls_core_rd_chunk(struct jls_core_s * self) {
     VERIF_UNREACHABLE("seek reads a position that holds no index chunk");
     return JLS_ERROR_NOT_FOUND;
 }
+
+#ifdef MODE_ITERATE
+static uint32_t n_cb;
+static uint32_t first_idx = 0xffffffffu, last_idx;
+static bool contiguous = true, ts_ok = true;
+static int64_t sid_offset;
+static uint32_t stop_after = 0xffffffffu;
+static int32_t anno_cbk(void * user_data, const struct jls_annotation_s * a) {
+    (void) user_data;
+    uint32_t i = a->group_id;
+    if (n_cb == 0) { first_idx = i; } else if (i != last_idx + 1) { contiguous = false; }
+    if (i < N_FIXED && a->timestamp != ts[i] - sid_offset) { ts_ok = false; }
+    last_idx = i;
+    ++n_cb;
+    return (n_cb >= stop_after) ? 1 : 0;
+}
+#endif
 
 void harness(void) {
     struct jls_core_signal_s * s = &core.signal_info[1];
@@ -119,7 +163,39 @@ void harness(void) {
     }
     SYM_I64(t);
     ASSUME(t > -((int64_t) 1 << 41) && t < ((int64_t) 1 << 41));
-#ifdef SEEK_LEVEL1
+#if defined(MODE_ITERATE)
+    {
+    /* the public iteration: API timestamps are file timestamps minus the signal's first sample id */
+    SYM_I64(soff);
+    ASSUME(soff > -((int64_t) 1 << 40) && soff < ((int64_t) 1 << 40));
+    sid_offset = soff;
+    s->signal_def.sample_id_offset = soff;
+    SYM_U32(stop);
+    ASSUME(stop >= 1);
+    stop_after = stop;
+    int32_t rc = jls_core_annotations(&core, 1, t - soff, anno_cbk, NULL);       /* t is the file timestamp of the request */
+    CHECK(rc == 0, "iteration succeeds");
+    CHECK(contiguous, "annotations are delivered in write order without holes");
+    CHECK(ts_ok, "delivered timestamps are the written ones (relative to the first sample id)");
+    CHECK(stop > N_FIXED || n_cb <= stop, "a callback that asks to stop ends the iteration");
+    uint32_t k = (n_cb == 0) ? N_FIXED : first_idx;
+    if (stop > N_FIXED) {
+        CHECK(n_cb == 0 || last_idx == N_FIXED - 1, "iteration runs to the last annotation");
+    }
+    SYM_U32(w);
+    ASSUME(w < N_FIXED);
+    if (ts[w] >= t) {
+        CHECK(w >= k, "every annotation with timestamp >= t is delivered (nothing omitted)");
+    }
+    SYM_U32(w2);
+    ASSUME(w2 < N_FIXED && w2 != w);
+    if (w >= k && w2 >= k) {
+        CHECK(!(ts[w] < t && ts[w2] < t), "at most one delivered annotation is earlier than t");
+    }
+    WITNESS_END();
+    return;
+    }
+#elif defined(SEEK_LEVEL1)
     int32_t rc = jls_core_ts_seek(&core, 1, 1, tt, t);
     CHECK(rc == 0, "seek succeeds on a non-empty track");
     uint32_t k = N_FIXED;     /* first entry of the level-1 chunk found */
@@ -132,6 +208,7 @@ void harness(void) {
     for (uint32_t i = 0; i < N_FIXED; ++i) { if (pos == DATA_OFF(i)) { k = i; } }
     CHECK(k < N_FIXED, "seek(level 0) ends on a DATA chunk");
 #endif
+#ifndef MODE_ITERATE
     SYM_U32(w);
     ASSUME(w < N_FIXED);
     if (ts[w] >= t) {
@@ -145,4 +222,5 @@ void harness(void) {
     }
 #endif
     WITNESS_END();
+#endif
 }
